@@ -663,7 +663,7 @@ func (r *c3Run) doResp(o c3Op) {
 		tok = c.wireTok
 		if o.rkind == 'p' && !r.tcp {
 			typ, mid = message.Acknowledgement, c.mid
-			ackfor = fmt.Sprintf("(Some %d)", r.emitID(o.forc))
+			ackfor = fmt.Sprintf("(Some %d%%nat)", r.emitID(o.forc))
 			c.acked = true
 		}
 	} else {
@@ -672,6 +672,8 @@ func (r *c3Run) doResp(o c3Op) {
 	switch o.rkind {
 	case 'n':
 		typ = message.NonConfirmable
+		// the response cache (filled by the ACK sent for a confirmable message) is consulted for CON and NON
+		dedup = !r.tcp && r.slotsCON[o.slot]
 	case 'a':
 		typ = message.Acknowledgement
 	case 'c':
@@ -711,6 +713,9 @@ func (r *c3Run) run() string {
 			if c == nil || !c.onWire || r.tcp {
 				continue
 			}
+			// an empty ACK that finds the pending entry of its message ID wakes the writer and is then
+			// passed through the queue (and dropped there); otherwise it is dropped at once
+			queued := !c.acked && !c.returned
 			c.acked = true
 			m := message.Message{Type: message.Acknowledgement, Code: codes.Empty, MessageID: int32(c.mid)}
 			buf := make([]byte, 16)
@@ -718,7 +723,7 @@ func (r *c3Run) run() string {
 			if err != nil {
 				panic(err)
 			}
-			r.inject(buf[:n], false)
+			r.inject(buf[:n], queued)
 			var rets []c3Ret
 			r.waitExpected(&rets)
 			r.item(fmt.Sprintf("KAck %d", r.emitID(o.cid)), rets, r.takeFell())
